@@ -21,7 +21,7 @@ class GpioWorld(World):
     stub_components = ("CSR initiator (seeded open-loop agent)", "pin input waveforms (seeded)")
     fault_kinds = ("abort", "gap", "abort_multi_chunk_write", "setclr_then_output_back_to_back",
                    "pin_toggles_in_snapshot_cycle", "setclr_code_11", "setclr_code_00",
-                   "unmapped_access")
+                   "unmapped_access", "second_instance_in_process")
     assumptions = (
         "Amaranth's Python RTL simulator executes the elaborated netlist faithfully",
         "only transaction-shaped CSR accesses are generated; the register-file half of the model "
@@ -51,7 +51,8 @@ class GpioWorld(World):
         end = (s1 + 2 * s2 + s1 - 1) // s1 * s1 + s1
         need = max(1, (end - 1).bit_length())
         return {"dw": dw, "pc": pc, "st": rng.range(0, 3), "aw": need - 1 if (need > 1 and rng.chance(0.04)) else rng.range(need, need + 2),
-                "hwseed": rng.bits(32), "p_pin": rng.choice([10, 50, 90])}
+                "hwseed": rng.bits(32), "p_pin": rng.choice([10, 50, 90]),
+                "decoy": int(rng.chance(0.12))}
 
     def gen_ops(self, rng, config, prop):
         dw, aw = config["dw"], config["aw"]
@@ -88,6 +89,10 @@ class GpioWorld(World):
                                                  f"{aw}, data_width={dw}, input_stages={st})",
                                                  *a_, **k_)) if aw >= need else hw.construct
         dut = ctor(gpio.Peripheral, pin_count=pc, addr_width=aw, data_width=dw, input_stages=st)
+        if config.get("decoy"):
+            gpio.Peripheral(pin_count=(pc % 5) + 1, addr_width=aw + 2, data_width=dw,
+                            input_stages=(st + 1) % 4)
+            stats.fault("second_instance_in_process")
         regs = {}
         for info in dut.bus.memory_map.all_resources():
             regs[str(info.path[-1][-1])] = (info.start, info.end)
